@@ -672,4 +672,14 @@ theorem mutate_local {m : Mode} {h h' : Heap} {a : Nat} {op : MOp} (wf : WF h) (
           rw [write_other _ _ this]
       · cases e
 
+/-- The spec of a collection built from new parts copies. -/
+theorem build_spec_copying (h : Heap) (cls : Cls) (mt vd : Bool) (dt u : Nat) (ap : List Nat)
+    (md : List (Nat × OV)) (dts : List Nat) (vals : List Rat) :
+    NewSpec.Copying h ⟨.new dt u (.new ap) (.new md), newVals mt vals, dts, mt, cls, vd⟩ := by
+  refine ⟨⟨_, _, _, _, rfl, fun r hr => by cases hr⟩, fun r hr => by simp [newVals] at hr, ?_⟩
+  intro v t hv hb
+  simp only [newVals, ValSrc.new.injEq] at hv
+  simp only at hb
+  rw [← hv.2, hb]; rfl
+
 end LbHeap
